@@ -74,6 +74,25 @@ class Engine:
 
     def step(self, op) -> bool:
         """Returns False when the history must stop (divergence found)."""
+        try:
+            return self._step(op)
+        except Exception as exc:  # noqa: BLE001
+            # Reading the graph back through its public accessors raised INSIDE the library: the op left behind
+            # an object that cannot be observed any more (e.g. a half-constructed universe that a law set
+            # already points at).  Anything raised in harness frames stays a harness error (exit 2).
+            tb = exc.__traceback__
+            while tb.tb_next is not None:
+                tb = tb.tb_next
+            where = tb.tb_frame.f_code.co_filename
+            if "/edgegraph/" not in where.replace("\\", "/"):
+                raise
+            k = len(self.executed)
+            self.findings.append(Finding(f"graph_unreadable_after:{type(exc).__name__}:{op[0]}",
+                                         f"op #{k} {op}: afterwards a public accessor of an object reachable from the "
+                                         f"pool raised {type(exc).__name__}: {exc} ({where.rsplit('/', 1)[-1]}:{tb.tb_lineno})", k))
+            return False
+
+    def _step(self, op) -> bool:
         if op[0] == "burst":
             n_before = len(self.executed)
             ok = self.step_burst(op[1])
